@@ -386,7 +386,7 @@ def _lane(binary, env, part, limit_ms, timeout):
         if pos + done >= len(part):
             raise core.Infra("probe_decode exited %d after its last command: %s" % (rc, err[-800:]))
         cid = part[pos + done][0]
-        how = "timeout" if rc == 98 else ("sanitizer" if rc == 97 else "crash")
+        how = "sanitizer" if (rc == 97 or "Sanitizer" in err or "runtime error:" in err) else ("timeout" if rc == 98 else "crash")
         out.setdefault(cid, [])
         out[cid] = [e for e in out[cid] if e["e"] != "Timeout"] + \
             [{"e": "Abort", "id": cid, "how": how, "rc": rc, "report": core.san_report(err, 3000)}]
@@ -407,7 +407,8 @@ def run_cmds(ctx, cmds, nproc=8, limit_ms=10000, timeout=1200):
     out = {}
     for o, _ in res:
         out.update(o)
-    aborted = [(i, c) for i, c in cmds if any(e["e"] == "Abort" for e in out.get(i, []))]
+    # a sanitizer report is its own evidence; what is re-run is an abort without one (watchdog, crash)
+    aborted = [(i, c) for i, c in cmds if any(e["e"] == "Abort" and e["how"] != "sanitizer" for e in out.get(i, []))]
     if aborted:
         with ThreadPoolExecutor(max_workers=min(8, len(aborted))) as ex:
             again = list(ex.map(lambda ic: _lane(binary, env, [ic], limit_ms * 3, timeout)[0], aborted))
@@ -416,8 +417,28 @@ def run_cmds(ctx, cmds, nproc=8, limit_ms=10000, timeout=1200):
                 ctx.extra["transient_probe_aborts"] = ctx.extra.get("transient_probe_aborts", 0) + 1
                 out[i] = o[i]
     ctx.extra["probe_aborts"] = ctx.extra.get("probe_aborts", 0) + sum(
-        1 for i, _ in aborted if any(e["e"] == "Abort" for e in out[i]))
+        1 for i, _ in cmds if any(e["e"] == "Abort" for e in out.get(i, [])))
     return out
+
+
+def san_kind(report):
+    """(kind, innermost fix8 function) of a sanitizer report: ('asan:stack-buffer-overflow', 'extract_element')."""
+    m = re.search(r"ERROR: AddressSanitizer: ([\w-]+)", report)
+    kind = "asan:" + m.group(1) if m else None
+    if kind is None:
+        m = re.search(r"runtime error: ([a-z -]+?)(?: of| by|:| -?\d|$)", report)
+        kind = "ubsan:" + m.group(1).strip().replace(" ", "_") if m else "unknown"
+    fn = "unknown"
+    for f in re.findall(r"#\d+ 0x\w+ in ([^\n]+)", report):
+        m = re.search(r"FIX8::(?:\w+::)*(\w+)(?:<[^(]*>)?\(", f)
+        if m:
+            fn = m.group(1)
+            break
+    if fn == "unknown":          # no stack in the report: fall back on the source file of the report line
+        m = re.search(r"([\w.]+\.(?:hpp|cpp|h|c)):\d+:\d+: runtime error", report)
+        if m:
+            fn = m.group(1)
+    return kind, fn
 
 
 def dec_cmd(i, which, mode, nochk, data):
